@@ -23,16 +23,50 @@
 //@   loop 1: invariant(this->processed >= __CPROVER_loop_entry(this->processed) && this->processed < this->scanneable && next >= 1 && this->ids[this->processed] == next)
 //@   loop 1: invariant((gk >= __CPROVER_loop_entry(this->processed) && gk <= this->processed) ==> this->ids[gk] == next)
 //@   loop 1: decreases(this->scanneable - this->processed)
+//@ fn StringDictionaryFMINDEX::locate
+//@   requires(__CPROVER_r_ok(this, sizeof(*this)) && strLen <= 100000 && (strLen == 0 || __CPROVER_r_ok(str, strLen)))
+//@   ensures(1)
+//@   assigns(g_ext_i)
+//@   loop 1: assigns(i, __CPROVER_object_whole(n_s))
+//@   loop 1: invariant(1 <= i && i <= (size_t)strLen + 1 && __CPROVER_same_object(n_s, __CPROVER_loop_entry(n_s)) && OFFS(n_s) == 0)
+//@   loop 1: decreases((size_t)strLen + 1 - i)
+//@ fn StringDictionaryFMINDEX::extract
 //@ fn StringDictionaryFMINDEX::locateSubstr
 //@ fn StringDictionaryFMINDEX::extractSubstr
 //@ ob dup_ctor entry=h_dup_ctor enforce=IteratorDictIDDuplicates__ctor__size_t_p__size_t tier=C props=C05,C13 kind=statement
 //@ ob dup_next entry=h_dup_next enforce=IteratorDictIDDuplicates__next loops tier=P props=C05,C13,C07 kind=statement
 //@ ob dup_once entry=h_dup_once replace=IteratorDictIDDuplicates__next tier=C props=C05,C13 kind=statement
+//@ ob fmindex_locate_frame entry=h_fm_locate enforce=StringDictionaryFMINDEX__locate replace=SSA__locate_id loops tier=P props=C14,C07 kind=statement
+//@ ob fmindex_id_remap entry=h_fm_remap tier=C props=C03,C01 kind=statement unwind=1
 //@ ob fmindex_nosampling entry=h_fm_nosampling tier=C props=C16,C05 kind=statement unwind=1
 #define DUPMAX 100000
 size_t gk;   /* ghost index */
+size_t g_ext_i;   /* ghost: the internal text position extract asks the FM-index for */
+typedef struct SSA SSA;
 //@ structs
+/* TRUSTED: SSA::locate_id / extract_id are outside the reach of contracts (FM-index internals): locate_id returns some value and writes nothing the caller sees; extract_id's argument is recorded */
+uint SSA__locate_id(SSA *this, uchar *pattern, uint m) __CPROVER_requires(__CPROVER_r_ok(pattern, m)) __CPROVER_ensures(1) __CPROVER_assigns();
+uchar *SSA__extract_id(SSA *this, uint id, uint *strLen, uint32_t maxlength);
 //@ lowered
+uchar *SSA__extract_id(SSA *this, uint id, uint *strLen, uint32_t maxlength) { g_ext_i = id; return (uchar *)0; }
+void h_fm_locate(void) {
+  StringDictionaryFMINDEX *d = malloc(sizeof(StringDictionaryFMINDEX)); __CPROVER_assume(d != NULL);
+  uint in_len; __CPROVER_assume(in_len <= 100000); uchar *s = malloc(in_len ? in_len : 1); __CPROVER_assume(s != NULL);
+  StringDictionaryFMINDEX__locate(d, s, in_len);
+  REACH_POINT();
+}
+/* C03/C01: the FM-index ID remapping used by extract (n -> 2, id -> id+3) is injective on [1,n] */
+void h_fm_remap(void) {
+  StringDictionaryFMINDEX *d = malloc(sizeof(StringDictionaryFMINDEX)); __CPROVER_assume(d != NULL);
+  __CPROVER_assume(d->elements >= 1 && d->elements < ((uint64_t)1 << 31));
+  size_t in_a, in_b; __CPROVER_assume(in_a >= 1 && in_a <= d->elements && in_b >= 1 && in_b <= d->elements && in_a != in_b);
+  uint l;
+  StringDictionaryFMINDEX__extract(d, in_a, &l); size_t ia = g_ext_i;
+  StringDictionaryFMINDEX__extract(d, in_b, &l); size_t ib = g_ext_i;
+  __CPROVER_assert(ia != ib, "C03: distinct IDs are extracted from distinct text positions");
+  __CPROVER_assert((ia == 2 || (ia >= 4 && ia <= d->elements + 2)), "C03: image of the ID remapping is {2} u [4, n+2]");
+  REACH_POINT();
+}
 static IteratorDictIDDuplicates *mk_dup(size_t n) {
   IteratorDictIDDuplicates *it = malloc(sizeof(IteratorDictIDDuplicates)); __CPROVER_assume(it != NULL);
   it->ids = malloc((n + 1) * sizeof(size_t)); __CPROVER_assume(it->ids != NULL);
